@@ -160,3 +160,115 @@ fn scalar_views_are_the_encoding() { check_scalar_views() }
 #[kani::proof]
 #[kani::unwind(258)]
 fn scalar_views_are_the_encoding_32() { check_scalar_views() }
+
+// ---- linear field operations on decoded elements, both builds: (a + b), (a - b), (-a) encode to the canonical value of the
+// sum / difference / negation modulo p = 2^255 - 19, computed byte-wise in the harness (33-byte accumulators); a chain of two
+// operations is included because results are not re-normalised between operations
+fn canon_u(v: &[u8; 33]) -> [u8; 32] {
+    // v < 4p: subtract p while >= p (at most three times), byte-wise
+    let mut x = *v;
+    let mut round = 0;
+    while round < 3 {
+        let mut ge = x[32] != 0;
+        if !ge {
+            ge = true;
+            let mut i = 32;
+            while i > 0 {
+                i -= 1;
+                if x[i] < P[i] {
+                    ge = false;
+                    break;
+                }
+                if x[i] > P[i] {
+                    break;
+                }
+            }
+        }
+        if ge {
+            let mut borrow = 0i16;
+            let mut j = 0;
+            while j < 33 {
+                let pj = if j < 32 { P[j] as i16 } else { 0 };
+                let d = x[j] as i16 - pj - borrow;
+                if d < 0 {
+                    x[j] = (d + 256) as u8;
+                    borrow = 1;
+                } else {
+                    x[j] = d as u8;
+                    borrow = 0;
+                }
+                j += 1;
+            }
+        }
+        round += 1;
+    }
+    let mut o = [0u8; 32];
+    let mut i = 0;
+    while i < 32 {
+        o[i] = x[i];
+        i += 1;
+    }
+    o
+}
+fn add33(a: &[u8; 32], b: &[u8; 32]) -> [u8; 33] {
+    let mut o = [0u8; 33];
+    let mut c = 0u16;
+    let mut i = 0;
+    while i < 32 {
+        let t = a[i] as u16 + b[i] as u16 + c;
+        o[i] = t as u8;
+        c = t >> 8;
+        i += 1;
+    }
+    o[32] = c as u8;
+    o
+}
+/// p - a for canonical a (a < p), as 32 bytes (p when a = 0)
+fn p_minus(a: &[u8; 32]) -> [u8; 32] {
+    let mut o = [0u8; 32];
+    let mut borrow = 0i16;
+    let mut j = 0;
+    while j < 32 {
+        let d = P[j] as i16 - a[j] as i16 - borrow;
+        if d < 0 {
+            o[j] = (d + 256) as u8;
+            borrow = 1;
+        } else {
+            o[j] = d as u8;
+            borrow = 0;
+        }
+        j += 1;
+    }
+    o
+}
+fn expect_eq(got: &[u8; 32], want: &[u8; 32]) {
+    let mut i = 0;
+    while i < 32 {
+        assert!(got[i] == want[i], "canonical encoding of the field result");
+        i += 1;
+    }
+}
+fn check_linear_ops() {
+    let xb: [u8; 32] = kani::any();
+    let yb: [u8; 32] = kani::any();
+    let (x, y) = (Fe::from_bytes(&xb), Fe::from_bytes(&yb));
+    let (cx, cy) = (spec_canon(&xb), spec_canon(&yb));
+    let ny = p_minus(&cy);
+    expect_eq(&(&x + &y).to_bytes(), &canon_u(&add33(&cx, &cy)));
+    expect_eq(&(&x - &y).to_bytes(), &canon_u(&add33(&cx, &ny)));
+    expect_eq(&(-&y).to_bytes(), &canon_u(&add33(&[0u8; 32], &ny)));
+    // (x + y) - (-y) = x + 2y: operands that are results of earlier operations
+    let s = &x + &y;
+    let n = -&y;
+    let two_y = canon_u(&add33(&cy, &cy));
+    expect_eq(&(&s - &n).to_bytes(), &canon_u(&add33(&cx, &two_y)));
+    kani::cover!(true);
+}
+// @harness props=C15,C17,C12 kind=full tier=quick build=default timeout=1200
+#[kani::proof]
+#[kani::unwind(34)]
+fn fe_linear_ops_are_field_ops() { check_linear_ops() }
+// @harness props=C17 kind=full tier=quick build=force32 timeout=1200
+#[kani::proof]
+#[kani::unwind(34)]
+fn fe_linear_ops_are_field_ops_32() { check_linear_ops() }
